@@ -93,6 +93,17 @@ impl Property for C10Prop {
         if case["kind"].as_str() == Some("default") {
             return check_default(case, stats);
         }
+        if case["kind"].as_str() == Some("derived") {
+            // a value made at run time from an operand that is narrower than the declared type of its
+            // position (a `[string]` for a parameter `[int|string]`, a predicate over `int|float` on an
+            // iterator over int): what is made belongs to the type the checker gives it, and so does
+            // everything it yields later - judged by the type monitor of C01 on every expression
+            let text = case["text"].as_str().unwrap_or("");
+            return match crate::props::soundness::C01.check_case(&json!({"kind": "program", "text": text}), stats) {
+                Verdict::Fail(f) => fail(format!("C10:derived-value:{}", f.sig), f.msg),
+                v => v,
+            };
+        }
         let (ta, tb, tc) = (
             case["a"].as_str().unwrap_or("int"),
             case["b"].as_str().unwrap_or("int"),
@@ -466,6 +477,31 @@ fn membership_cases() -> Vec<Json> {
     cases
 }
 
+fn derived_cases() -> Vec<Json> {
+    let arrays = ["[1, 2]", "[\"a\"]", "[1, \"a\"]", "[1.5]", "[[1]]", "[]", "[1; 0]"];
+    let params = [("[int]", "int"), ("[int|string]", "int|string"), ("[any]", "any"), ("[int|float|string]", "int|float|string"), ("[int|string|[int]]", "int|string|[int]"), ("[string|float]", "string|float")];
+    let wider = ["any", "int|float|string|[int]"];
+    let mut out = vec![];
+    for (pt, et) in params {
+        let mut ops: Vec<String> = vec!["a~".to_string(), "a[0:1]~".to_string(), "(a + a)~".to_string(), "(a~ $])~".to_string()];
+        for w in std::iter::once(et).chain(wider) {
+            ops.push(format!("a~ ? (x: {w}) -> bool {{ return true; }}"));
+            ops.push(format!("a~ ? (x: {w}) -> bool {{ return false; }}"));
+            ops.push(format!("a~ @ (x: {w}) -> {w} {{ return x; }}"));
+            ops.push(format!("(a~ \\ (x: {w}) -> bool {{ return true; }}).0~"));
+            ops.push(format!("a~ ? {et}"));
+        }
+        for op in &ops {
+            for arr in arrays {
+                // pulled past its end, collected, and tested against the element type it was made for
+                out.push(json!({"kind": "derived", "text": format!("f := (a: {pt}) -> any {{ it := {op}; r1 := it(); r2 := it(); r3 := it(); c := it $]; k := if v: [{et}] = c {{ 1 }} else {{ 0 }}; return (r1, r2, r3, c, k); }}; f({arr})")}));
+                out.push(json!({"kind": "derived", "text": format!("f := (a: {pt}) -> any {{ it := {op}; g := (i: () -> (bool, {et})) -> any {{ x := i(); y := i(); z := i(); return (x.1, y.1, z.1); }}; return g(it); }}; f({arr})")}));
+            }
+        }
+    }
+    out
+}
+
 pub fn run(session: &Session) -> i32 {
     crate::engine::run_regressions(session, &C10);
     // a small hand-picked exhaustive core: all ordered triples over a basis of types
@@ -489,6 +525,9 @@ pub fn run(session: &Session) -> i32 {
     let membership = membership_cases();
     session.set_extra("membership_cases", json!(membership.len()));
     cases.extend(membership);
+    let derived = derived_cases();
+    session.set_extra("derived_value_cases", json!(derived.len()));
+    cases.extend(derived);
     let defaults = default_cases();
     session.set_extra("default_value_cases", json!(defaults.len()));
     cases.extend(defaults);
